@@ -71,6 +71,30 @@ theorem keyQuoted (U : List UInt8) (hU : (0x25 : UInt8) ∈ U) (hA : AsciiSet U)
     rw [this]
     simp [canonOpt, strOf_none, safelyQuote_nil]
 
+theorem strOf_canonOpt_false_auth (o : Option Str) :
+    strOf (canonOpt false unquoteAuthItem o) = unquoteAuthItem (strOf o) := by
+  cases o with
+  | none => simp [canonOpt, strOf_none, unquoteAuthItem_nil]
+  | some x => rw [strOf_canonOpt_some_auth, strOf_some]
+
+/-- the same for a user name / password: in quoted mode `safely_unquote_auth_item` counts as its
+partial (`canonOpt_true_auth`), and the partial undoes the re-quoting of the NFKC look-alikes
+(`safelyUnquote_unquoteAuthItem`) — FX-C01-NFKCUSERINFO -/
+theorem keyQuoted_auth (o : Option Str) (c : Prop) [Decidable c]
+    (hc : ¬ c → strOf (canonOpt false unquoteAuthItem o) = []) :
+    strOf (canonOpt true unquoteAuthItem
+      (if c then some (strOf (canonOpt false unquoteAuthItem o)) else none)) =
+      strOf (canonOpt true unquoteAuthItem o) := by
+  rw [canonOpt_true_auth, canonOpt_true_auth]
+  by_cases h : c
+  · rw [if_pos h, strOf_canonOpt_true_some, strOf_canonOpt_false_auth,
+      safelyUnquote_unquoteAuthItem, strOf_canonOpt_true]
+  · rw [if_neg h, strOf_canonOpt_true _ o]
+    have := hc h
+    rw [strOf_canonOpt_false_auth, unquoteAuthItem_eq] at this
+    rw [← safelyQuote_authItem, this]
+    simp [canonOpt, strOf_none, safelyQuote_nil]
+
 section
 variable {puny : Str → Str} (hpl : PunyLaws puny) (hpc : PunyClean puny) (sf : Bool)
   {S rest : Str} {p : Parsed} (h : FromParse S rest p)
@@ -104,7 +128,7 @@ theorem canonParts_reparsed_quoted (hpath : PathIdem) :
         strOf (canonOpt true unquoteAuthItem p.username) := by
       simp only [reparsedOf, reparsed]
       rw [canonComps_user, canonComps_pass]
-      exact keyQuoted Gen.Quote.unsafeForAuthItem hU asciiSet_auth p.username _
+      exact keyQuoted_auth p.username _
         (fun hc => by
           simp only [not_or, Classical.not_not] at hc
           exact hc.2)
@@ -112,7 +136,7 @@ theorem canonParts_reparsed_quoted (hpath : PathIdem) :
         strOf (canonOpt true unquoteAuthItem p.password) := by
       simp only [reparsedOf, reparsed]
       rw [canonComps_pass]
-      exact keyQuoted Gen.Quote.unsafeForAuthItem hU asciiSet_auth p.password _
+      exact keyQuoted_auth p.password _
         (fun hc => by
           simp only [Classical.not_not] at hc
           exact hc)
